@@ -42,6 +42,10 @@ ASSUMPTIONS = [
 ]
 
 
+def _cur():
+    return getattr(S.SLock.sched, "current", "epilogue")
+
+
 def trace_filter(code):
     if code.co_filename == P.__file__:
         return True
@@ -123,19 +127,19 @@ def run_case(case):
         def g():
             o = og()
             if holder.get(id(o)) is not None:
-                problems.append(("double-hand-out", "object handed to thread %s while thread %s holds it" % (S.SLock.sched.current, holder[id(o)])))
-            holder[id(o)] = S.SLock.sched.current
+                problems.append(("double-hand-out", "object handed to thread %s while thread %s holds it" % (_cur(), holder[id(o)])))
+            holder[id(o)] = _cur()
             return o
 
         def rl(o, *a, **k):
-            if holder.get(id(o)) not in (None, S.SLock.sched.current):
-                problems.append(("released-by-non-holder", "thread %s releases an object that thread %s holds" % (S.SLock.sched.current, holder[id(o)])))
+            if holder.get(id(o)) not in (None, _cur()):
+                problems.append(("released-by-non-holder", "thread %s releases an object that thread %s holds" % (_cur(), holder[id(o)])))
             holder[id(o)] = None
             return orl(o, *a, **k)
 
         def d(o, *a, **k):
-            if holder.get(id(o)) not in (None, S.SLock.sched.current):
-                problems.append(("destroyed-by-non-holder", "thread %s destroys an object that thread %s holds" % (S.SLock.sched.current, holder[id(o)])))
+            if holder.get(id(o)) not in (None, _cur()):
+                problems.append(("destroyed-by-non-holder", "thread %s destroys an object that thread %s holds" % (_cur(), holder[id(o)])))
             holder[id(o)] = None
             return od(o, *a, **k)
         pool.get, pool.release, pool.destroy = g, rl, d
@@ -227,6 +231,29 @@ def run_case(case):
             S.SLock.sched = None
         if sc.overrun:
             raise HarnessError("step limit exceeded in a C08 schedule")
+        if not sc.deadlock and not sc.errors and not problems:
+            # afterwards, with every thread done, the pool serves max_size + 1 checkouts one after the other: no slot was lost
+            probe_out = []
+
+            def probe():
+                for _ in range(min(limit, 3) + 1):
+                    try:
+                        if harness == "a":
+                            pool.release(pool.get())
+                        else:
+                            pc.get("k")
+                    except RuntimeError as e:
+                        probe_out.append(e)
+                    except OSError:
+                        pass
+            if net is not None:
+                net.hook = None
+            try:
+                probe()
+            except Exception as e:  # noqa: BLE001
+                probe_out.append(e)
+            if probe_out:
+                problems.append(("slot-lost", "with every thread done, %d sequential checkouts in a row fail: %r" % (min(limit, 3) + 1, probe_out[:1])))
         for tid, e in sc.errors.items():
             problems.append(("internal-error", "thread %d died with %r" % (tid, e)))
         if sc.deadlock:
@@ -295,6 +322,9 @@ def bounded_cases(tier, seed):
             if "failget" in (a, b):
                 conf["fail_recv"] = [0]
             confs.append(conf)
+    # the pool is emptied while one thread waits for it and is used again by that thread and a third one
+    confs.append({"harness": "a", "threads": [["clear"], ["gr"], ["gr"]], "max_size": 1, "idle": 0, "two_in_quick": True})
+    confs.append({"harness": "a", "threads": [["clear", "gr"], ["ctx"], ["gd"]], "max_size": 1, "idle": 0})
     confs.append({"harness": "c", "threads": [["set"], ["close"]], "max_size": 2})
     confs.append({"harness": "c", "threads": [["get"], ["close"]], "max_size": 1})
     core = [("a", ["gr"], ["gr"], 1), ("a", ["gd"], ["gr"], 1), ("a", ["gr"], ["ctxfail"], 1), ("a", ["gr"], ["clear"], 1),
@@ -303,7 +333,7 @@ def bounded_cases(tier, seed):
         if any(conf["harness"] == h and sorted(conf["threads"]) == sorted([a, b]) and conf["max_size"] == ms for h, a, b, ms in core):
             conf["two_in_quick"] = True
     for conf in confs:
-        for first in ((0,) if conf["threads"][0] == conf["threads"][-1] and len(conf["threads"]) == 2 else (0, 1)):   # symmetric: one start order
+        for first in ((0,) if (conf["threads"][0] == conf["threads"][-1] and len(conf["threads"]) == 2) or len(conf["threads"]) == 3 else (0, 1)):   # symmetric: one start order
             base = dict({k_: v for k_, v in conf.items() if k_ != "two_in_quick"}, first=first)
             n = _steps(base) + 2
             yield dict(base, preempt=[])
